@@ -1594,7 +1594,7 @@ func (ctx *RenderContext) evaluateBinaryOp(operator string, left, right interfac
 				if rNum == 0 {
 					return nil, errors.New("division by zero")
 				}
-				return lNum / rNum, nil
+				return lNum/rNum + 0, nil // adding zero turns -0 into 0
 			}
 		}
 
@@ -1613,7 +1613,7 @@ func (ctx *RenderContext) evaluateBinaryOp(operator string, left, right interfac
 		// Exponentiation operator
 		if lNum, lok := ctx.toNumber(left); lok {
 			if rNum, rok := ctx.toNumber(right); rok {
-				return math.Pow(lNum, rNum), nil
+				return math.Pow(lNum, rNum) + 0, nil // adding zero turns -0 into 0
 			}
 		}
 
